@@ -5,10 +5,10 @@ import vlib
 from vlib import NoVerdict, log
 
 CFG = {
-    "C17": dict(quick=["MCSigner_c17q", "MCSigner_c17c", "MCSigner_c17d", "MCSigner_c17lq", "MCSigner_c17x"],
-                thorough=["MCSigner_c17t", "MCSigner_c17c", "MCSigner_c17d", "MCSigner_c17lt", "MCSigner_c17x"], mode="c17", formula="TC17"),
-    "C18": dict(quick=["MCSigner_c18a", "MCSigner_c18b", "MCSigner_c18h", "MCSigner_c18r", "MCSigner_c18p"],
-                thorough=["MCSigner_c18t", "MCSigner_c18h", "MCSigner_c18r", "MCSigner_c18p"], mode="c18", formula="TC18"),
+    "C17": dict(quick=["MCSigner_c17q", "MCSigner_c17c", "MCSigner_c17d", "MCSigner_c17lq", "MCSigner_c17x", "MCSigner_c17r"],
+                thorough=["MCSigner_c17t", "MCSigner_c17c", "MCSigner_c17d", "MCSigner_c17lt", "MCSigner_c17x", "MCSigner_c17r"], mode="c17", formula="TC17"),
+    "C18": dict(quick=["MCSigner_c18a", "MCSigner_c18b", "MCSigner_c18h", "MCSigner_c18r", "MCSigner_c18p", "MCSigner_c18s"],
+                thorough=["MCSigner_c18t", "MCSigner_c18h", "MCSigner_c18r", "MCSigner_c18p", "MCSigner_c18s"], mode="c18", formula="TC18"),
 }
 TRACE_CFG = """SPECIFICATION TraceSpec
 CONSTANTS
@@ -19,6 +19,7 @@ CONSTANTS
   Attempts = {}
   Ctxs = {}
   Tries = {}
+  Reqs = {}
   Hists = {}
 """
 HS = os.path.join(vlib.HARNESS, "signer")
@@ -161,7 +162,10 @@ def vkey(trace, li):
         k += " bundle=%s/%s" % ("+".join(r0["bundle"]["cas"]), r0["bundle"]["lay"])
     if r0.get("ctx", "wide") != "wide" or r0.get("hist", "none") != "none" or r0.get("tries", 1) != 1:
         k += " ctx=%s hist=%s tries=%d" % (r0.get("ctx", "wide"), r0.get("hist", "none"), r0.get("tries", 1))
+    if r0.get("req", "full") != "full":
+        k += " req=%s" % r0["req"]
     if e["op"] == "return":
+        k += " kept=%s" % str(e.get("kept", True)).lower()
         return k + " rej=return err=%s pan=%s%s certs=%d" % (str(e["err"]).lower(), str(e["pan"]).lower(), " hang=true" if e.get("hang") else "", len(e["certs"]))
     if e["op"] == "contact":
         return k + " rej=contact ep=%d hs=%s ver=%s cc=%s rpc=%s same=%s" % (e["ep"], e["hs"], e["ver"], e["cc"], str(e["rpc"]).lower(), str(e["same"]).lower())
@@ -170,7 +174,7 @@ def vkey(trace, li):
 
 def case_of(trace):
     r0 = trace[0]
-    return {"eps": r0["eps"], "bundle": r0["bundle"], "ctx": r0.get("ctx", "wide"), "tries": r0.get("tries", 1), "hist": r0.get("hist", "none"), "info": r0.get("info")}
+    return {"eps": r0["eps"], "bundle": r0["bundle"], "ctx": r0.get("ctx", "wide"), "tries": r0.get("tries", 1), "req": r0.get("req", "full"), "hist": r0.get("hist", "none"), "info": r0.get("info")}
 
 
 def proc_key(c):
